@@ -1,4 +1,6 @@
 import RactorModel.Lemmas.RegistryView
+import RactorModel.Lemmas.RegistryConcEv
+import RactorModel.Extracted
 
 /-!
 # C10 — a name maps to at most one live actor and is released on exit
@@ -258,6 +260,199 @@ example : ok (view (run false init f2Witness)) = true ∧ whereIs (run false ini
 example : noNamedRemoteProxy (spawnNamedOps 0 7 ++ spawnProxyOps 1 none ++ exitOps 1) = true := by decide
 example : noNamedRemoteProxy f2Witness = false := by decide
 
+/-! ### Round 4: constructor, `set_status` and the pid monitors as programs (`Model/RegistryConc.lean`)
+
+`Reg2.Op` lists are arbitrary interleavings of: the three statements of `ActorCell::new` (name insert, pid
+insert — which may fail —, rollback), `new_remote`, `set_status` calls (the `fetch_max`, then the cleanup
+block statement by statement: `demonitor`, `unregister_pid`, `registry::unregister`), `monitor` /
+`demonitor` of the pid registry.  `publish a Stopped` is not guarded. -/
+
+/-- the invariant of the split model, for every interleaving -/
+theorem conc_invariant (ops : List Reg2.Op) : Reg2.RInv (Reg2.run Reg2.init ops) := Reg2.RInv.init.run ops
+
+/-- whoever a lookup returns owns the name: it was constructed with that name, is local, and is between its
+own insert and its own removal; two such cells never share a name -/
+theorem conc_name_has_one_owner (ops : List Reg2.Op) (n a : Nat)
+    (h : (Reg2.run Reg2.init ops).names n = some a) :
+    ((Reg2.run Reg2.init ops).act a).name = some n ∧ ((Reg2.run Reg2.init ops).act a).remote = false ∧
+    Reg2.holds ((Reg2.run Reg2.init ops).act a) = true ∧
+    ∀ b, ((Reg2.run Reg2.init ops).act b).name = some n → Reg2.holds ((Reg2.run Reg2.init ops).act b) = true → b = a := by
+  have I := conc_invariant ops
+  obtain ⟨h1, h2⟩ := I.owner n a h
+  refine ⟨h1, ?_, h2, ?_⟩
+  · simp only [Reg2.holds, Bool.and_eq_true, Bool.not_eq_eq_eq_not, Bool.not_true] at h2; exact h2.1.1
+  · intro b hb1 hb2
+    have := I.entry b n hb1 hb2
+    rw [h] at this; exact (Option.some.inj this).symm
+
+/-- a failed registration — `AlreadyRegistered` at the name insert, or a failing `register_pid` followed by
+the rollback — leaves no name behind, whatever other constructors (same name or not), lookups and exits
+interleave: no entry of the table points at a cell whose `new` returned `Err` -/
+theorem failed_registration_leaves_no_name (ops : List Reg2.Op) (a : Nat)
+    (hf : ((Reg2.run Reg2.init ops).act a).pc = .failed) (n : Nat) :
+    (Reg2.run Reg2.init ops).names n ≠ some a := by
+  intro h
+  have := ((conc_invariant ops).owner n a h).2
+  simp [Reg2.holds, hf] at this
+
+/-- the rollback is an unguarded remove-by-key; it is safe because at that point the entry under the name
+is the cell's own (nobody else can have taken the name in the window), and afterwards the name is free -/
+theorem rollback_removes_own_entry (ops : List Reg2.Op) (a n : Nat)
+    (hpc : ((Reg2.run Reg2.init ops).act a).pc = .consRollback)
+    (hn : ((Reg2.run Reg2.init ops).act a).name = some n) :
+    (Reg2.run Reg2.init ops).names n = some a ∧
+    (Reg2.step (Reg2.run Reg2.init ops) (.rollback a)).names n = none ∧
+    ((Reg2.step (Reg2.run Reg2.init ops) (.rollback a)).act a).pc = .failed := by
+  have I := conc_invariant ops
+  have hp := I.pcs a
+  have hh : Reg2.holds ((Reg2.run Reg2.init ops).act a) = true := by
+    simp only [Reg2.pcOk, hpc] at hp
+    simp [Reg2.holds, hpc, hp.2.1, hn]
+  refine ⟨I.entry a n hn hh, ?_, ?_⟩
+  · simp [Reg2.step, hpc, hn, Reg2.setPc, Reg2.upd]
+  · simp [Reg2.step, hpc, hn, Reg2.setPc, Reg2.upd]
+
+/-- the window between the two DashMap operations of `new` is visible: a lookup can return a cell that
+`where_is_pid` does not know — exactly while the cell is between its name insert and its pid insert (or
+rollback), or while its elected cleanup block is between `unregister_pid` and `registry::unregister` -/
+theorem name_without_pid_window (ops : List Reg2.Op) (n a : Nat)
+    (h : (Reg2.run Reg2.init ops).names n = some a) (hp : (Reg2.run Reg2.init ops).pids a = false) :
+    ((Reg2.run Reg2.init ops).act a).pc = .consPid ∨ ((Reg2.run Reg2.init ops).act a).pc = .consRollback ∨
+    ∃ st, ((Reg2.run Reg2.init ops).act a).pc = .blk [.unregName] st := by
+  have I := conc_invariant ops
+  have h2 := (I.owner n a h).2
+  have h3 := I.pid a
+  have h4 := I.pcs a
+  rw [hp] at h3
+  cases hpc : ((Reg2.run Reg2.init ops).act a).pc with
+  | consPid => exact .inl rfl
+  | consRollback => exact .inr (.inl rfl)
+  | blk rest st =>
+    right; right
+    simp only [Reg2.pcOk, hpc] at h4
+    rcases h4.2 with e | e | e | e <;> subst e
+    · simp [Reg2.pidHeld, Reg2.holds, hpc] at h2 h3; simp [h2.1] at h3
+    · simp [Reg2.pidHeld, Reg2.holds, hpc] at h2 h3; simp [h2.1] at h3
+    · exact ⟨st, rfl⟩
+    · simp [Reg2.holds, hpc] at h2
+  | live =>
+    simp [Reg2.pidHeld, Reg2.holds, hpc] at h2 h3
+    simp [h2.1.1] at h3
+    exact absurd h2.2 (Nat.not_lt.mpr h3)
+  | none => simp [Reg2.holds, hpc] at h2
+  | consName => simp [Reg2.holds, hpc] at h2
+  | failed => simp [Reg2.holds, hpc] at h2
+
+/-- clause 5 with the order as a hypothesis about the callers instead of a guard of the model: if every
+`set_status(Stopped)` is issued on an actor that is already at least `Stopping` (`Reg2.Ordered`; discharged for
+the source text by `stopped_call_sites_match_source` below), `where_is` never returns an actor whose
+`wait()` has returned -/
+theorem whereIs_sound_conc (ops : List Reg2.Op) (hord : Reg2.Ordered Reg2.init ops = true) (n a : Nat)
+    (h : (Reg2.run Reg2.init ops).names n = some a) :
+    ((Reg2.run Reg2.init ops).act a).status ≠ Reg2.stopped := by
+  intro hs
+  have := Reg2.OInv.run Reg2.RInv.init Reg2.OInv.init ops hord a hs
+  rw [((conc_invariant ops).owner n a h).2] at this; cases this
+
+/-- … and without the hypothesis it is false: `set_status(Stopped)` on a running actor publishes `Stopped`
+first and unregisters afterwards — a lookup in between returns an actor whose `wait()` has returned -/
+theorem whereIs_unsound_without_caller_order :
+    let s := Reg2.run Reg2.init [.new 0 (some 7), .regName 0, .regPid 0, .publish 0 2, .publish 0 6]
+    s.names 7 = some 0 ∧ (s.act 0).status = Reg2.stopped ∧
+      Reg2.Ordered Reg2.init [.new 0 (some 7), .regName 0, .regPid 0, .publish 0 2, .publish 0 6] = false := by
+  decide
+
+/-- clause 6: once every local actor that carries the name is Stopped, the name is free (so the next
+`regName` for it succeeds) -/
+theorem name_free_after_exit_conc (ops : List Reg2.Op) (hord : Reg2.Ordered Reg2.init ops = true) (n : Nat)
+    (hall : ∀ a, ((Reg2.run Reg2.init ops).act a).name = some n →
+      ((Reg2.run Reg2.init ops).act a).status = Reg2.stopped) :
+    (Reg2.run Reg2.init ops).names n = none := by
+  cases h : (Reg2.run Reg2.init ops).names n with
+  | none => rfl
+  | some a =>
+    exact absurd (hall a ((conc_invariant ops).owner n a h).1) (whereIs_sound_conc ops hord n a h)
+
+/-- pid table (clause 8): `get_all_pids` / `where_is_pid` know exactly the local actors between their
+`register_pid` and their own `unregister_pid`; a remote id is never in the table -/
+theorem pid_table_is_live_locals (ops : List Reg2.Op) (a : Nat) :
+    (Reg2.run Reg2.init ops).pids a = Reg2.pidHeld ((Reg2.run Reg2.init ops).act a) ∧
+    (((Reg2.run Reg2.init ops).act a).remote = true → Reg2.whereIsPid (Reg2.run Reg2.init ops) a = none) := by
+  have h := (conc_invariant ops).pid a
+  refine ⟨h, fun hr => ?_⟩
+  simp [Reg2.whereIsPid, h, Reg2.pidHeld, hr]
+
+/-- `register_pid` reports `Spawn(a)` to exactly the listeners registered at that instant, once each -/
+theorem spawn_reported_to_current_monitors (s : Reg2.State) (a : Nat) (h : (s.act a).pc = .consPid) :
+    (Reg2.step s (.regPid a)).log = s.log ++ (Reg2.listeners s).map (fun l => (l, true, a)) ∧
+    ((Reg2.listeners s).map (fun l => (l, true, a))).Nodup := by
+  refine ⟨by simp [Reg2.step, h, Reg2.setPc, Reg2.fanout], ?_⟩
+  exact (Reg2.fanout_pairwise s true a).imp (fun h => h.1)
+
+/-- `unregister_pid` (second statement of the elected cleanup block) reports `Terminate(a)` to exactly the
+listeners registered at that instant, once each, if `a` is in the table; nothing otherwise -/
+theorem terminate_reported_to_current_monitors (s : Reg2.State) (a st : Nat) (rest : List Reg2.Stmt)
+    (h : (s.act a).pc = .blk (.unregPid :: rest) st) :
+    (Reg2.step s (.bstep a)).log =
+      s.log ++ (if (s.act a).remote = false ∧ s.pids a = true then (Reg2.listeners s).map (fun l => (l, false, a)) else []) := by
+  by_cases hc : (s.act a).remote = false ∧ s.pids a = true
+  · simp [Reg2.step, h, Reg2.exec, Reg2.setPc, Reg2.fanout, hc.1, hc.2]
+  · have : (!(s.act a).remote && s.pids a) = false := by
+      cases hr : (s.act a).remote <;> cases hp : s.pids a <;> simp_all
+    simp [Reg2.step, h, Reg2.exec, Reg2.setPc, this, hc]
+
+/-- for every interleaving: no listener is told the same event twice; a `Terminate(a)` is never followed by a
+`Spawn(a)` (Spawn before Terminate); every event is about a local actor whose `register_pid` succeeded
+(nothing for remote ids, nothing for rejected cells), every `Terminate` about one that has left the table -/
+theorem pid_events_once_in_order (ops : List Reg2.Op) :
+    (Reg2.run Reg2.init ops).log.Pairwise Reg2.EvRel ∧
+    (∀ e ∈ (Reg2.run Reg2.init ops).log, Reg2.spawned ((Reg2.run Reg2.init ops).act e.2.2) = true) ∧
+    (∀ e ∈ (Reg2.run Reg2.init ops).log, e.2.1 = false → Reg2.terminated ((Reg2.run Reg2.init ops).act e.2.2) = true) :=
+  ⟨Reg2.LogOk.run Reg2.RInv.init List.Pairwise.nil ops, (conc_invariant ops).evSp, (conc_invariant ops).evTm⟩
+
+/-! #### ties to the source text (E-SRC) -/
+
+/-- `set_status`: the status word is published first, then the block in the order of `Reg2.blockProg`, the
+waiters are notified last -/
+theorem set_status_block_matches_source :
+    Extracted.setStatusOrder =
+      "inner.set_status" :: (Reg2.blockProg.map Reg2.Stmt.text ++ ["demonitor_all", "leave_all", "notify_stop_listener"]) ∧
+    Extracted.setStatusCleanupElectedOnce = true := by decide
+
+/-- the caller order (`Reg2.Ordered`): `set_status(Stopped)` has exactly two call sites; in `cleanup` it is
+preceded by `set_status(Stopping)`; in `spawn_linked_remote` it runs only after `start(..)` has returned an
+error, i.e. after the lifecycle guard's `cleanup` -/
+theorem stopped_call_sites_match_source :
+    Extracted.stoppedCallSites = ["actor.rs:cleanup", "actor.rs:spawn_linked_remote"] ∧
+    Extracted.remoteStoppedAfterFailedStart = true ∧
+    Extracted.cleanupOrder.head? = some "set_status:Stopping" ∧
+    Extracted.cleanupOrder.getLast? = some "set_status:Stopped" := by decide
+
+/-- the fix of F2: the name is unregistered only by cells with a local id, and `new_remote` registers nothing -/
+theorem unregister_guarded_by_is_local :
+    Extracted.unregisterGuardedByIsLocal = true ∧ Extracted.newRemoteTouchesRegistries = false := by decide
+
+/-- `ActorCell::new` (and its thread-local twin): name insert, pid insert, rollback on failure, in this order -/
+theorem constructor_order_matches_source :
+    Extracted.newRegistryCalls = ["register", "register_pid", "unregister"] ∧
+    Extracted.newRollsBackOnPidFailure = true ∧
+    Extracted.newThreadLocalRegistryCalls = ["register", "register_pid", "unregister"] := by decide
+
+/-- the pid registry only ever looks at local ids; events are sent after the table changed -/
+theorem pid_registry_guards_match_source :
+    Extracted.pidRegistryLocalGuards = [("register_pid", true), ("unregister_pid", true), ("where_is_pid", true)] ∧
+    Extracted.pidEventsAfterTableChange = true := by decide
+
+/-- non-vacuity: two same-name constructors race, the loser's pid insert of an unrelated third fails and is
+rolled back, a monitor sees Spawn then Terminate of the winner exactly once -/
+example :
+    let s := Reg2.run Reg2.init [.monitor 9, .new 0 (some 7), .new 1 (some 7), .regName 1, .regName 0, .regPid 1,
+      .new 2 (some 8), .regName 2, .regPidFail 2, .rollback 2, .publish 1 2, .publish 1 5, .bstep 1, .bstep 1,
+      .bstep 1, .bstep 1, .publish 1 6]
+    (s.act 0).pc = .failed ∧ (s.act 2).pc = .failed ∧ s.names 8 = none ∧ s.names 7 = none ∧
+      s.log = [(9, true, 1), (9, false, 1)] ∧ (s.act 1).status = 6 ∧ Reg2.allPids s = [] := by decide
+
+
 end C10
 
 #print axioms C10.ok_reachable
@@ -277,3 +472,20 @@ end C10
 #print axioms C10.late_drain_is_noop
 #print axioms C10.exiting_actor_env_frame
 #print axioms C10.drain_keeps_tables
+#print axioms C10.conc_invariant
+#print axioms C10.conc_name_has_one_owner
+#print axioms C10.failed_registration_leaves_no_name
+#print axioms C10.rollback_removes_own_entry
+#print axioms C10.name_without_pid_window
+#print axioms C10.whereIs_sound_conc
+#print axioms C10.whereIs_unsound_without_caller_order
+#print axioms C10.name_free_after_exit_conc
+#print axioms C10.pid_table_is_live_locals
+#print axioms C10.spawn_reported_to_current_monitors
+#print axioms C10.terminate_reported_to_current_monitors
+#print axioms C10.pid_events_once_in_order
+#print axioms C10.set_status_block_matches_source
+#print axioms C10.stopped_call_sites_match_source
+#print axioms C10.unregister_guarded_by_is_local
+#print axioms C10.constructor_order_matches_source
+#print axioms C10.pid_registry_guards_match_source
